@@ -178,3 +178,11 @@ PROPERTY_ASSUMPTIONS["C04"] = [
     "wallet slips, stored blocks and the full observable snapshot after a real failed reorganisation are outside the claim",
 ]
 M("C04", "c04_machine", ["Blockchain::validate", "Blockchain::wind_chain", "Blockchain::unwind_chain"], "see assumptions; one class per (|new|, |old|, validity pattern forced by the path)", covers=4)
+
+# ============================================================================== C16
+PROPERTY_ASSUMPTIONS["C16"] = [
+    "inductive step: one selection round (get_blocks_to_fetch_per_peer) from an arbitrary state of one peer's queue that satisfies the invariant #Fetching <= batch size; batch size 1..=3; the invariant is re-established (P1), so the bound holds along every history of rounds",
+    "the queue is given sorted by strictly increasing id, so the stable sort inside the round is modelled as the identity (equal ids with hash tie-break are outside the claim); other operations (announcements, mark_as_failed / fetched, remove_entry) and liveness over unbounded histories are outside this revision's claim",
+]
+M("C16", "c16_select_step", ["saito_core::core::consensus::blockchain_sync_state::BlockchainSyncState::get_blocks_to_fetch_per_peer"],
+  "queues of 1..=3 entries (thorough 4): every status pattern (4^n), ids, retry counters (full u32) and batch size symbolic; ~14 clauses per path", covers=3)
